@@ -478,8 +478,71 @@ def fde_msgs(cfg, res):
 
 
 # ------------------------------------------------------------------ driver
+def check_forms(res):
+    """integer-typed and strided records holding the same values give the same reversals, cycle tables, bin counts and
+    fatigue spectra as the float64 contiguous record; the record is never modified"""
+    from pyyeti import cyclecount, fdepsd
+
+    msgs = []
+    base_records = {
+        "zigzag": np.array([0, 3, -2, 5, 1, -4, 2, 0, 6, -3, 1, 2, 2, -5, 4, 0], dtype=np.int64),
+        "plateaus": np.array([1, 1, 4, 4, 4, -2, -2, 3, 0, 0, 5, -1, -1, 2, 2, 0], dtype=np.int64),
+        "wide": np.array([100, -120, 90, -127, 127, -3, 60, -100, 5, 110, -90, 0], dtype=np.int64),  # int8 differences overflow
+    }
+    base_records["unsigned"] = np.array([200, 10, 250, 0, 255, 3, 128, 90, 254, 1, 1, 77], dtype=np.int64)  # unsigned differences wrap
+    t = np.arange(400) / 400.0
+    base_records["sine-mix"] = np.round(40 * np.sin(2 * np.pi * 13 * t) + 25 * np.sin(2 * np.pi * 31 * t + 0.4) + 12 * np.cos(2 * np.pi * 7 * t)).astype(np.int64)
+    funcs = {
+        "findap": lambda y: [cyclecount.findap(y)],
+        "findap(tol=.3)": lambda y: [cyclecount.findap(y, tol=0.3)],
+        "rainflow": lambda y: [np.asarray(cyclecount.rainflow(y, use_pandas=False))],
+        "rainflow(getoffsets)": lambda y: [np.asarray(a) for a in cyclecount.rainflow(y, getoffsets=True, use_pandas=False)],
+        "sigcount": lambda y: [cyclecount.sigcount(y, 4, 3).values],
+        "sigcount(right=False)": lambda y: [cyclecount.sigcount(y, 3, 4, right=False).values],
+    }
+    if "other-branch" in variants():
+        funcs["findap(other-branch)"] = lambda y: [variants()["other-branch"](y), variants()["other-branch"](y, 0.3)]
+    for resp in ("absacce", "pvelo"):
+        funcs["fdepsd(%s)" % resp] = (lambda y, resp=resp: [getattr(fdepsd.fdepsd(y, 400.0, [9.0, 23.0, 41.0], 10, resp=resp, nbins=5, rolloff="none", parallel="no"), nm).values
+                                                            if hasattr(getattr(fdepsd.fdepsd(y, 400.0, [9.0], 10, resp=resp, nbins=5, rolloff="none", parallel="no"), nm), "values") else None
+                                                            for nm in ("psd", "srs", "var", "peakamp", "binamps", "count", "bincount", "di_sig")])
+    for rname, yi in base_records.items():
+        big = np.full(2 * len(yi) + 1, 999.0)
+        big[1::2] = yi
+        two = np.full((len(yi), 3), -7)
+        two[:, 1] = yi
+        forms = {"strided": big[1::2], "2d-column": two[:, 1]}
+        for dt in (np.int8, np.int16, np.int32, np.int64, np.uint8, np.uint16, np.uint32, np.uint64):
+            if yi.min() >= np.iinfo(dt).min and yi.max() <= np.iinfo(dt).max:
+                forms[np.dtype(dt).name] = yi.astype(dt)
+        for fname, fn in funcs.items():
+            if fname.startswith("fdepsd") and rname != "sine-mix":
+                continue
+            try:
+                base = fn(yi.astype(float))
+            except Exception as e:  # noqa
+                msgs.append((dict(part="forms", rec=rname, fn=fname, form="float64"), "%s raised %r on the float64 record" % (fname, e), "forms-base"))
+                continue
+            res.ev("forms/%s/%s" % (fname, rname))
+            for form, y in forms.items():
+                case = dict(part="forms", rec=rname, fn=fname, form=form)
+                snap = y.copy()
+                try:
+                    got = fn(y)
+                except Exception as e:  # noqa
+                    msgs.append((case, "%s raised %r for a record given as %s" % (fname, e, form), "forms-raise"))
+                    continue
+                ok = all((a is None and b is None) or (np.asarray(a).shape == np.asarray(b).shape and np.array_equal(np.asarray(a, float), np.asarray(b, float), equal_nan=True))
+                         for a, b in zip(got, base))
+                if not ok:
+                    msgs.append((case, "%s: a record given as %s gives a different result than the same values as contiguous float64" % (fname, form), "forms-diff"))
+                if not (y.dtype == snap.dtype and np.array_equal(y, snap)):
+                    msgs.append((case, "%s modified the caller's record (%s)" % (fname, form), "forms-mutated"))
+    return msgs
+
+
 def shards(tier, seed):
-    out = []
+    out = [dict(part="forms")]
     Lmax = 5 if tier == "quick" else 7
     for alpha in ("int", "eps"):
         for tol in (1e-6, 0.3):
@@ -515,6 +578,11 @@ def _run(sh, res):
     if part == "binify":
         m = table_msgs(np.array(sh["cyc"]), res, sh.get("tag", ""))
         return [x for x in m if all(jsame(x[0].get(k), sh.get(k)) for k in ("amp", "mean", "right", "cb"))]
+    if part == "forms":
+        m = check_forms(res)
+        if "fn" in sh:
+            m = [x for x in m if all(x[0].get(k) == sh.get(k) for k in ("rec", "fn", "form"))]
+        return m
     if part == "synthetic":
         msgs = []
         for i, cyc in enumerate(synthetic_tables()):
